@@ -3,6 +3,18 @@
 //! commit | discard) interleaved with compaction at earlier boundaries and drop + reopen;
 //! fixed-size and variable-size elements.  A second stream drives `PruneList` directly.
 //!
+//! Runs: `fixed` / `var` (scripted families + random histories), `cutoff` (the deterministic family
+//! around the compaction cutoff: the boundary's last leaf spent inside the horizon, compaction at
+//! that boundary, rewind that un-spends it, sibling spent, second compaction, reopen - for every
+//! boundary leaf count), `bulk` (large un-synced batches after a rewind, rolled back: files on
+//! disk and in-memory view compared byte for byte with the state before the unit), `rough`
+//! (out-of-protocol, model only), `prunelist`.
+//!
+//! Oracles evaluated on the implementation itself (`#ORACLE-FAIL C08 … | history: …`): the reference
+//! oracle after every single step (`observe_inner`), the deep oracle for every unspent leaf after
+//! every compaction / rewind / reopen / commit / discard (`deep_oracle`), the byte comparisons of
+//! the bulk run (`compare_files`).
+//!
 //! The harness tracks the chain-level bookkeeping (block boundaries = committed sizes with their
 //! unspent sets) that the chain keeps in its database, so that `rewind_rm_pos` and the compaction
 //! cutoff follow the usage protocol of `chain/src/txhashset/txhashset.rs`.
@@ -248,9 +260,19 @@ struct Run<'a, T: Kind> {
 	protected_once: BTreeSet<u64>,
 	/// … of those, the ones a later rewind made unspent again
 	readded_protected: BTreeSet<u64>,
+	/// oracle-only history: nothing is printed for the driver (its list-based model is quadratic
+	/// in the batch size); the harness' own oracles are evaluated as always
+	mute: bool,
 }
 
 impl<'a, T: Kind> Run<'a, T> {
+	/// one line for the driver - unless the history is oracle-only (`mute`)
+	fn emit(&mut self, lhs: &str, rhs: &str) {
+		if !self.mute {
+			self.out.line(lhs, rhs);
+		}
+	}
+
 	fn be(&mut self) -> &mut PMMRBackend<T> {
 		self.backend.as_mut().unwrap()
 	}
@@ -282,7 +304,7 @@ impl<'a, T: Kind> Run<'a, T> {
 		self.protected_once.clear();
 		self.readded_protected.clear();
 		self.st.histories += 1;
-		self.out.line(&format!("store new {}", T::NAME), "ok");
+		self.emit(&format!("store new {}", T::NAME), "ok");
 	}
 
 	fn oracle_fail(&mut self, msg: String) {
@@ -363,7 +385,7 @@ impl<'a, T: Kind> Run<'a, T> {
 		};
 		self.st.op("push");
 		self.hist.push("push".into());
-		self.out.line(&format!("store push {}", hex(&e.ser())), &rhs);
+		self.emit(&format!("store push {}", hex(&e.ser())), &rhs);
 		if check {
 			self.check(false);
 		}
@@ -395,7 +417,7 @@ impl<'a, T: Kind> Run<'a, T> {
 				self.st.sibling_of_readded_spent += 1;
 			}
 		}
-		self.out.line(&format!("store prune {}", pos0), &rhs);
+		self.emit(&format!("store prune {}", pos0), &rhs);
 		self.check(false);
 	}
 
@@ -423,8 +445,7 @@ impl<'a, T: Kind> Run<'a, T> {
 			Ok(Err(_)) => "err".to_string(),
 			Err(_) => "panic".to_string(),
 		};
-		self.out
-			.line(&format!("store rewind {} {}", target.size, bm_list(&bitmap)), &rhs);
+		self.emit(&format!("store rewind {} {}", target.size, bm_list(&bitmap)), &rhs);
 		self.st.op("rewind");
 		self.hist.push(format!("rewind {} {}", target.size, bm_list(&bitmap)));
 		for p in rm.iter() {
@@ -460,7 +481,7 @@ impl<'a, T: Kind> Run<'a, T> {
 			Ok(false) => "err",
 			Err(_) => "panic",
 		};
-		self.out.line("store sync", rhs);
+		self.emit("store sync", rhs);
 		self.st.op("sync");
 		self.hist.push("sync".into());
 		self.st.commits += 1;
@@ -478,7 +499,7 @@ impl<'a, T: Kind> Run<'a, T> {
 	fn discard(&mut self, saved: Book<T>) {
 		self.be().discard();
 		self.bk = saved;
-		self.out.line("store discard", "ok");
+		self.emit("store discard", "ok");
 		self.st.op("discard");
 		self.hist.push("discard".into());
 		self.st.discards += 1;
@@ -526,7 +547,13 @@ impl<'a, T: Kind> Run<'a, T> {
 				}
 			}
 		}
-		let bitmap: Bitmap = rm.iter().map(|p| (*p + 1) as u32).collect();
+		let mut bitmap: Bitmap = rm.iter().map(|p| (*p + 1) as u32).collect();
+		// Self-test of the oracles (never set by `check`): hand the store a `rewind_rm_pos` that lacks
+		// the cutoff position itself, as a chain with an off-by-one in `input_pos_to_rewind` would.
+		// The store then compacts a leaf the harness' bookkeeping still protects.
+		if std::env::var("VERIF_STORE_SELFTEST").as_deref() == Ok("drop-cutoff-from-rm") {
+			bitmap.remove(cutoff as u32);
+		}
 		let before = (self.be().hash_size(), self.be().data_size());
 		let res = {
 			let be = self.backend.as_mut().unwrap();
@@ -537,8 +564,7 @@ impl<'a, T: Kind> Run<'a, T> {
 			Ok(false) => "err",
 			Err(_) => "panic",
 		};
-		self.out
-			.line(&format!("store compact {} {}", cutoff, bm_list(&bitmap)), rhs);
+		self.emit(&format!("store compact {} {}", cutoff, bm_list(&bitmap)), rhs);
 		self.st.op("compact");
 		self.hist.push(format!("compact {} {}", cutoff, bm_list(&bitmap)));
 		self.protected_once.extend(rm.iter());
@@ -570,7 +596,7 @@ impl<'a, T: Kind> Run<'a, T> {
 		self.backend = None;
 		self.open();
 		self.empty_data_pending = false;
-		self.out.line("store reopen", "ok");
+		self.emit("store reopen", "ok");
 		self.st.op("reopen");
 		self.hist.push("reopen".into());
 		self.st.reopens += 1;
@@ -899,7 +925,7 @@ impl<'a, T: Kind> Run<'a, T> {
 				// `@n`: position in the run (ignored by the driver) - the same query at a different
 				// point of the history is a different case
 				let tag = self.out.lines;
-				self.out.line(&format!("{} @{}", l, tag), &r);
+				self.emit(&format!("{} @{}", l, tag), &r);
 			}
 		}
 		for f in fails {
@@ -910,12 +936,12 @@ impl<'a, T: Kind> Run<'a, T> {
 	fn observe_prune_file(&mut self) {
 		let pl = PruneList::open(self.dir.join("pmmr_prun.bin")).unwrap();
 		let tag = self.out.lines;
-		self.out.line(&format!("store prunelist @{}", tag), &pl_str(&pl));
+		self.emit(&format!("store prunelist @{}", tag), &pl_str(&pl));
 		// which of the leaves a permitted rewind can still bring back lie in a pruned subtree: none
 		let prot = self.protected_leaves();
 		let cov = self.covered_by_prune_list(&prot);
 		let tag = self.out.lines;
-		self.out.line(
+		self.emit(
 			&format!("store covered {} @{}", nat_list(&prot.iter().cloned().collect::<Vec<_>>()), tag),
 			&nat_list(&cov),
 		);
@@ -1584,7 +1610,7 @@ impl<'a, T: Kind> Run<'a, T> {
 			None => "0 -".to_string(),
 		};
 		let tag = self.out.lines;
-		self.out.line(
+		self.emit(
 			&format!("store disk @{}", tag),
 			&format!("{} {} {}", part("pmmr_hash.bin"), part("pmmr_data.bin"), part("pmmr_size.bin")),
 		);
@@ -1654,6 +1680,11 @@ impl<'a, T: Kind> Run<'a, T> {
 				let p = pmmr::insertion_to_pmmr_index(pmmr::n_leaves(self.bk.size) - 2);
 				self.prune(p);
 			}
+			// Self-test of the oracles (never set by `check`): a flush in the middle of the batch, as an
+			// append path writing through to disk would do
+			if k == 50 && std::env::var("VERIF_STORE_SELFTEST").as_deref() == Ok("sync-mid-batch") {
+				let _ = self.be().sync();
+			}
 			if hb.max(db) >= next_cmp {
 				next_cmp += target / 4;
 				self.compare_files(&files0, "an append before any sync (mid-batch)");
@@ -1689,8 +1720,8 @@ impl<'a, T: Kind> Run<'a, T> {
 	/// large now; (3) rewind to an early boundary (a truncation of nearly the whole file is
 	/// pending) + big batch, discarded; (4) reopen: files and view unchanged; (5) rewind one block
 	/// + big batch with removals, discarded; (6) rewind to the early boundary + big batch,
-	/// committed (the truncation really happens), reopen.
-	fn bulk_history(&mut self, target: u64, with_compact: bool) {
+	/// committed (the truncation really happens), reopen.  `short`: stop after (4).
+	fn bulk_history(&mut self, target: u64, with_compact: bool, short: bool) {
 		let leaf = |i: u64| pmmr::insertion_to_pmmr_index(i);
 		self.fresh();
 		self.plain_unit(5, &[], true);
@@ -1715,6 +1746,12 @@ impl<'a, T: Kind> Run<'a, T> {
 			self.oracle_fail("in-memory view changed by drop + reopen".into());
 		}
 		self.observe(true, false);
+		if short {
+			// the short histories stop here
+			self.disk_line();
+			self.backend = None;
+			return;
+		}
 		let n = self.bk.chain.len();
 		self.bulk_batch(target / 2, Some(n - 2), false, true);
 		self.bulk_batch(target, Some(early), true, true);
@@ -1915,6 +1952,7 @@ fn new_run<'a, T: Kind>(out: &'a mut Out, rng: &'a mut Rng, st: &'a mut Stats, d
 		fails_in_history: 0,
 		protected_once: BTreeSet::new(),
 		readded_protected: BTreeSet::new(),
+		mute: false,
 	}
 }
 
@@ -1967,19 +2005,32 @@ fn run_cutoff<T: Kind>(out: &mut Out, rng: &mut Rng, max_l: u64) {
 }
 
 /// `store bulk`: large un-synced batches after a rewind, rolled back
-fn run_bulk<T: Kind>(out: &mut Out, rng: &mut Rng, target: u64) {
+fn run_bulk<T: Kind>(out: &mut Out, rng: &mut Rng, thorough: bool) {
 	let work = std::env::var("VERIF_WORK").expect("VERIF_WORK not set");
 	let dir = PathBuf::from(work).join(format!("bulk_{}", T::NAME));
 	let mut st = Stats::default();
 	{
 		let mut run: Run<'_, T> = new_run(out, rng, &mut st, dir);
-		run.bulk_history(target, false);
-		run.bulk_history(target, true);
+		// tied to the model by the driver: 64 KiB batches (and 1 MiB for the 683-byte kind, thorough)
+		run.bulk_history(64 * 1024, false, false);
+		run.bulk_history(64 * 1024, true, false);
+		if thorough && T::NAME == "rp" {
+			run.bulk_history(1024 * 1024, true, true);
+		}
+		// oracle-only (byte comparisons, view comparison, reference and deep oracle; no driver lines)
+		run.mute = true;
+		if thorough {
+			run.bulk_history(1024 * 1024, true, false);
+			run.bulk_history(4 * 1024 * 1024, false, true);
+		} else {
+			run.bulk_history(1024 * 1024, true, true);
+		}
+		run.mute = false;
 	}
 	print_stats(out, &format!("bulk-{}", T::NAME), &st);
 	out.raw(&format!(
-		"#STAT [bulk-{}] bulk batches={} (discarded {}) target {} bytes per batch; largest un-synced hash buffer {} bytes, data buffer {} bytes; byte-for-byte comparisons of all files of the directory: {}",
-		T::NAME, st.bulk_batches, st.bulk_discarded, target, st.bulk_max_hash_buf, st.bulk_max_data_buf, st.bulk_file_compares
+		"#STAT [bulk-{}] bulk batches={} (discarded {}); batches of 64 KiB tied to the model by the driver, batches of {} oracle-only; largest un-synced hash buffer {} bytes, data buffer {} bytes; byte-for-byte comparisons of all files of the directory: {}",
+		T::NAME, st.bulk_batches, st.bulk_discarded, if thorough { "1 MiB and 4 MiB" } else { "1 MiB" }, st.bulk_max_hash_buf, st.bulk_max_data_buf, st.bulk_file_compares
 	));
 	print_deep_stats(out, &format!("bulk-{}", T::NAME), &st);
 }
@@ -2208,10 +2259,9 @@ fn main() {
 		run_cutoff::<VarElem>(&mut out, &mut rng, max_l);
 	}
 	if mode == "bulk" || mode == "all" {
-		let target: u64 = if thorough { 1024 * 1024 } else { 64 * 1024 };
-		run_bulk::<Elem>(&mut out, &mut rng, target);
-		run_bulk::<RpElem>(&mut out, &mut rng, target);
-		run_bulk::<VarElem>(&mut out, &mut rng, target);
+		run_bulk::<Elem>(&mut out, &mut rng, thorough);
+		run_bulk::<RpElem>(&mut out, &mut rng, thorough);
+		run_bulk::<VarElem>(&mut out, &mut rng, thorough);
 	}
 	if mode == "rough" || mode == "all" {
 		let (h, n) = if thorough { (20, 600) } else { (6, 400) };
